@@ -1060,6 +1060,7 @@ class ArgumentParser(ParserDeprecations, ActionsContainer, ArgumentLinking, argp
     def error(self, message: str, ex: Optional[Exception] = None) -> NoReturn:
         """Logs error message if a logger is set and exits or raises an ArgumentError."""
         self._logger.error(message)
+        _ActionPrintConfig.discard_print_config_request(self)
         if callable(self._error_handler):
             self._error_handler(self, message)
         if not self.exit_on_error:
